@@ -3,6 +3,7 @@ use crate::orders::{OrderId, Side};
 use serde::{Deserialize, Serialize};
 use std::fmt;
 use std::str::FromStr;
+#[cfg_attr(feature = "verif", allow(unused_imports))]
 use std::time::{SystemTime, UNIX_EPOCH};
 use uuid::Uuid;
 
@@ -41,10 +42,13 @@ impl Transaction {
         quantity: u64,
         taker_side: Side,
     ) -> Self {
+        #[cfg(not(feature = "verif"))]
         let timestamp = SystemTime::now()
             .duration_since(UNIX_EPOCH)
             .expect("Time went backwards")
             .as_millis() as u64;
+        #[cfg(feature = "verif")]
+        let timestamp = crate::verif::now_millis();
 
         Self {
             transaction_id,
